@@ -173,6 +173,49 @@ R5 = {
  "C20-j": ("EIRP index rounds the requested power to nearest", "powers with fractional part >= .5 just below a table entry"),
 }
 R2.update(R5)
+R6 = {
+ "C01-k": ("MACPayload encoder omits the FPort octet when FPort = 0 and the FRMPayload is empty", "data frame with FPort 0, no payload, no FOpts"),
+ "C01-l": ("decoded FPort points into the caller's input buffer", "the input buffer is reused after decoding"),
+ "C02-k": ("MIC comparison folds byte differences with XOR instead of OR", "a wrong MIC whose byte differences cancel (same bit flipped in two bytes)"),
+ "C02-l": ("uplink B1 block masks TxDr to 4 bits", "1.1 uplink with txDR >= 16"),
+ "C03-k": ("PHYPayload.EncryptFRMPayload fast path encrypts only a leading DataPayload and drops the other items", "FRMPayload given as two or more items with a DataPayload first"),
+ "C03-l": ("exported EncryptFRMPayload pads in a pooled buffer and returns a slice of it", "two unaligned results alive at once"),
+ "C04-k": ("join MIC comparison folds with XOR (as C02-k, in the join validators)", "a forged join MIC with cancelling byte differences"),
+ "C04-l": ("join-accept MIC input assembled in a fixed 32-byte buffer with copy", "OptNeg join-accept with CFList (40 bytes of input)"),
+ "C05-k": ("MIC direction byte derived from the MType instead of the function called", "a 1.0 frame signed for one direction validates for the other"),
+ "C05-l": ("UnmarshalText strips one '=' and decodes unpadded base64", "frames whose length is 1 modulo 3 (text ends in '==')"),
+ "C06-k": ("same edit as C01-k, written independently", "FPort 0 without payload"),
+ "C06-l": ("CFList channel decoder stops at the first zero entry (as C01-i)", "a zero entry followed by a non-zero one"),
+ "C07-k": ("unregistered proprietary CIDs swallow the rest of the stream", "a CID >= 0x80 not registered for the direction followed by more commands"),
+ "C07-l": ("BeaconFreqReq encoder refuses frequencies below 100 MHz", "Frequency 0 (use the default)"),
+ "C08-k": ("NetID / AES128Key binary decoders reverse the caller's bytes in place (as C09-j)", "rejoin type 0/2 frames with a non-palindromic NetID"),
+ "C08-l": ("PHYPayload.MarshalJSON decodes the FOpts into the shared MACPayload", "a received frame with FOpts logged as JSON before it is re-encoded"),
+ "C09-k": ("hex text decoders filter separators with string concatenation (quadratic)", "long text: cost grows quadratically"),
+ "C09-l": ("DecodeFRMPayloadToMACCommands dereferences a nil FPort", "a data frame without FPort"),
+ "C10-k": ("join-accept / proprietary decode aliases the caller's buffer", "the source buffer overwritten after decoding"),
+ "C10-l": ("CFList.MarshalBinary pads with append onto the payload's own slice", "a join-accept whose CFList payload is an opaque sub-slice with spare capacity"),
+ "C11-k": ("IsNetID range table without an upper bound for type 7", "a DevAddr starting with 0xff against a type-7 NetID"),
+ "C11-l": ("NetID.UnmarshalText accepts empty text as a no-op", "empty text (after an optional 0x)"),
+ "C12-k": ("CN470 RX1 frequency computed arithmetically with > instead of >=", "CN470 uplink channel 48"),
+ "C12-l": ("ping-slot hopping rounds the beacon time to the nearest period", "beacon times 64 s or more into a beacon period (US915, AU915, CN470)"),
+ "C13-k": ("fixed-plan channel frequencies computed in float MHz with truncation", "US915 / AU915 downlink channels 3 and 6 are 1 Hz low"),
+ "C13-l": ("unknown protocol versions resolve to the closest older table instead of the latest", "numeric version strings without their own table (1.0.4, 1.2.0, 9.9.9)"),
+ "C14-k": ("planner returns nothing when the device would be left without channels", "network-enabled channels the device can know = empty while the device has channels"),
+ "C14-l": ("channels with frequency 0 dropped from the mask", "AddChannel(0,..) then Enable, device has it, another difference in the block"),
+ "C15-k": ("CFList channel decoder stops at the first zero (as C01-i)", "a placeholder channel between custom channels"),
+ "C15-l": ("channel index checks collapsed into a uint32 comparison", "indices whose low 32 bits are a valid channel number: panic"),
+ "C16-k": ("key derivation chosen by OptNeg and the MACVersion string", "OptNeg = 1 with a MACVersion starting with 1.0"),
+ "C16-l": ("identical join-requests in flight are coalesced: the later ones get a copy of the first answer", "two requests with one PHYPayload but their own transaction id / DevAddr overlapping in one handler"),
+ "C17-k": ("DLMetaData.MarshalJSON clears DataRate1/2 when DLFreq1/2 is absent", "a data-rate set with the matching frequency unset"),
+ "C17-l": ("KeyEnvelope.Unwrap unwraps in place in the shared AESKey bytes", "a second Unwrap of the same envelope"),
+ "C18-k": ("McGroupSetupReq refuses MinMcFCnt > MaxMcFCnt", "a Min/Max pair in the wrong order (both fields are in range)"),
+ "C18-l": ("clocksync decoders no longer clear their bool flags", "a payload value reused for a command with the flag clear"),
+ "C19-k": ("matrixLine draws mod/2 coefficients", "a single-fragment block"),
+ "C19-l": ("parity offsets memoised per (n, m) although they depend on the fragment size", "two encodes with equal fragment count and different fragment size"),
+ "C20-k": ("symbol number in integer arithmetic with truncating division", "a negative numerator (short payloads with implicit header / SF12)"),
+ "C20-l": ("EIRP index through int(eirp) before clamping", "powers >= 2^63"),
+}
+R2.update(R6)
 res = {}
 p = os.path.join(V, "RESULTS.tsv")
 if os.path.exists(p):
@@ -192,7 +235,7 @@ for seed, (change, needs) in R2.items():
     if not os.path.isdir(d):
         continue
     meta = {"property": seed.split("-")[0], "change": change, "needs_to_manifest": needs,
-            "written_by": ("independent sub-agent (fifth round: a validation regression, a unit / representation / order confusion) given only the property text and a scratch worktree of /repo" if seed[-1] in "ij" else "independent sub-agent (fourth round: a sibling inconsistency, a new code path with a flaw) given only the property text and a scratch worktree of /repo" if seed[-1] in "gh" else "independent sub-agent (third round: one small value-level change in a rarely exercised corner, one free choice) given only the property text and a scratch worktree of /repo" if seed[-1] in "ef" else "independent sub-agent (second round: asked for changes that need history, aliasing, interleavings or rare values) given only the property text and a scratch worktree of /repo"),
+            "written_by": ("independent sub-agent (sixth round: asked for kinds of change still missing from the collection) given only the property text, the list of changes collected so far and a scratch worktree of /repo" if seed[-1] in "kl" else "independent sub-agent (fifth round: a validation regression, a unit / representation / order confusion) given only the property text and a scratch worktree of /repo" if seed[-1] in "ij" else "independent sub-agent (fourth round: a sibling inconsistency, a new code path with a flaw) given only the property text and a scratch worktree of /repo" if seed[-1] in "gh" else "independent sub-agent (third round: one small value-level change in a rarely exercised corner, one free choice) given only the property text and a scratch worktree of /repo" if seed[-1] in "ef" else "independent sub-agent (second round: asked for changes that need history, aliasing, interleavings or rare values) given only the property text and a scratch worktree of /repo"),
             "confirmed": {"applies_to": "/repo HEAD at the time of collection", "suite": "bin/baseline.sh with the patch applied: 235/235 stable tests pass",
                           "demo": "bin/confirm_seed.sh %s: demo_test.go fails with the patch and passes without" % seed},
             "caught_by": caught(seed)}
